@@ -227,23 +227,23 @@ func writeEvidence(pc *propCheck, r *Report, seed int, wall float64, nviol int) 
 		keys[o.Key()] = true
 	}
 	cov := map[string]any{
-		"explanation":         pc.explanation,
-		"obligations":         len(r.Obl),
-		"discharged":          r.count(stOK) + r.count(stReviewed),
-		"discharged_by_rule":  byRule,
+		"explanation":          pc.explanation,
+		"obligations":          len(r.Obl),
+		"discharged":           r.count(stOK) + r.count(stReviewed),
+		"discharged_by_rule":   byRule,
 		"discharged_by_tactic": byTactic,
-		"reviewed":            r.count(stReviewed),
-		"known_findings":      r.count(stKnown),
-		"evaluations":         len(r.Obl),
-		"distinct_nontrivial": len(keys),
-		"rule":                "one obligation per (rule, function, construct) enumerated from the type-checked AST / go/ssa form of /repo's working tree; all are distinct by key; an obligation is non-trivial when a rule had to inspect code to decide it (all are)",
-		"rule_instances":      r.Instances,
-		"instance_floors":     r.Floors,
-		"samples":             samples,
-		"open":                open,
-		"checker_cmd":         "bin/psa check " + r.Prop + " --tier " + r.Tier,
-		"trusted_base":        pc.trusted,
-		"exhaustive":          true,
+		"reviewed":             r.count(stReviewed),
+		"known_findings":       r.count(stKnown),
+		"evaluations":          len(r.Obl),
+		"distinct_nontrivial":  len(keys),
+		"rule":                 "one obligation per (rule, function, construct) enumerated from the type-checked AST / go/ssa form of /repo's working tree; all are distinct by key; an obligation is non-trivial when a rule had to inspect code to decide it (all are)",
+		"rule_instances":       r.Instances,
+		"instance_floors":      r.Floors,
+		"samples":              samples,
+		"open":                 open,
+		"checker_cmd":          "bin/psa check " + r.Prop + " --tier " + r.Tier,
+		"trusted_base":         pc.trusted,
+		"exhaustive":           true,
 	}
 	for k, v := range r.Extra {
 		cov[k] = v
